@@ -1116,34 +1116,67 @@ func ruleDrainBounds(r *Run, id string) {
 	}
 	name := fnName(fn)
 	stream, caller, timeout := false, false, false
-	allInstrs(fn, func(ins ssa.Instruction) {
-		sel, ok := ins.(*ssa.Select)
-		if !ok || sel.Blocking {
-			return
+	// roots of a polled context; a root that is a parameter of a helper the wait loop was moved to is resolved further
+	// at the helper's call sites
+	var rootsDeep func(v ssa.Value, depth int) []ssa.Value
+	rootsDeep = func(v ssa.Value, depth int) []ssa.Value {
+		var out []ssa.Value
+		for _, rt := range ctxRoots(v) {
+			prm, isP := canonVal(rt).(*ssa.Parameter)
+			if !isP || prm.Parent() == fn || depth >= 2 {
+				out = append(out, rt)
+				continue
+			}
+			h := prm.Parent()
+			idx := -1
+			for i, q := range h.Params {
+				if q == prm {
+					idx = i
+				}
+			}
+			sites := p.staticCallSites(h)
+			if idx < 0 || len(sites) == 0 {
+				out = append(out, rt)
+				continue
+			}
+			for _, s := range sites {
+				if cc := instrCall(s); cc != nil && idx < len(cc.Args) {
+					out = append(out, rootsDeep(cc.Args[idx], depth+1)...)
+				}
+			}
 		}
-		for _, st := range sel.States {
-			if st.Dir != types.RecvOnly {
-				continue
+		return out
+	}
+	p.withHelpers(fn, 1, func(g *ssa.Function) {
+		allInstrs(g, func(ins ssa.Instruction) {
+			sel, ok := ins.(*ssa.Select)
+			if !ok || sel.Blocking {
+				return
 			}
-			cx := doneCtx(st.Chan)
-			if cx == nil {
-				continue
-			}
-			for _, rt := range ctxRoots(cx) {
-				l := p.Leaves(rt, provOpts{StopAtCalls: true})
-				if hasLeaf(l, "field:/iscp.Upstream.ctx") {
-					stream = true
+			for _, st := range sel.States {
+				if st.Dir != types.RecvOnly {
+					continue
 				}
-				if prm, isP := canonVal(rt).(*ssa.Parameter); isP && isContextType(prm.Type()) {
-					caller = true
+				cx := doneCtx(st.Chan)
+				if cx == nil {
+					continue
 				}
-				if c, isC := rt.(*ssa.Call); isC && isCallNamed(c, "context.WithTimeout") {
-					if hasLeaf(p.Leaves(c.Call.Args[1], provOpts{}), "field:/iscp.Upstream.closeTimeout") {
-						timeout = true
+				for _, rt := range rootsDeep(cx, 0) {
+					l := p.Leaves(rt, provOpts{StopAtCalls: true})
+					if hasLeaf(l, "field:/iscp.Upstream.ctx") {
+						stream = true
+					}
+					if prm, isP := canonVal(rt).(*ssa.Parameter); isP && isContextType(prm.Type()) {
+						caller = true
+					}
+					if c, isC := rt.(*ssa.Call); isC && isCallNamed(c, "context.WithTimeout") {
+						if hasLeaf(p.Leaves(c.Call.Args[1], provOpts{}), "field:/iscp.Upstream.closeTimeout") {
+							timeout = true
+						}
 					}
 				}
 			}
-		}
+		})
 	})
 	r.Check(name+" bounded by the stream context", stream, p.pos(fn.Pos()), name, "a polled context must derive from Upstream.ctx")
 	r.Check(name+" bounded by the caller context", caller, p.pos(fn.Pos()), name, "a polled context must derive from the ctx parameter")
@@ -2321,10 +2354,11 @@ func isRequestCtxParam(p *Prog, prm *ssa.Parameter, depth int) bool {
 // function; a lookup, range or len of the same field that can reach the write but lies before such a release is a stale
 // check unless the field is inspected again inside the section the write sits in (the re-check of a double-checked
 // insert).
-// checkThenActExceptions: one named function each, with the reason the split check is harmless there.
+// checkThenActExceptions: one named container each, with the reason the split check is harmless for it (keyed by the
+// field, not by the function the registration happens to live in).
 var checkThenActExceptions = map[string]string{
-	"(*iscp.Conn).call":           "the call id is minted by the library (a fresh UUID per call): the duplicate test is a defensive belief, two callers never hold the same id",
-	"(*iscp.Conn).subscribeReply": "the request id is the library-minted call id of this very call: the duplicate test is a defensive belief, two callers never hold the same id",
+	"/iscp.Conn.upstreamCallAckCh": "keyed by the call id, which the library mints (a fresh random id per call): the duplicate test is a defensive belief, two callers never hold the same id",
+	"/iscp.Conn.replyCallChs":      "keyed by the library-minted call id of this very call: the duplicate test is a defensive belief, two callers never hold the same id",
 }
 
 func ruleCheckThenActAtomic(r *Run, id string, pkgs ...string) {
@@ -2438,7 +2472,7 @@ func ruleCheckThenActAtomic(r *Run, id string, pkgs ...string) {
 					}
 				})
 			}
-			if why, ok := checkThenActExceptions[name]; ok {
+			if why, ok := checkThenActExceptions[fk]; ok {
 				r.Check(key+" inspected and written in one section", true, posOf(p, mu), name, "excepted: "+why)
 				return
 			}
